@@ -650,12 +650,15 @@ impl Stdfs {
                     )?;
                 }
 
-                // Copy over the file/link
+                // Copy over the file/link, an existing destination keeps its own mode
+                let dst_mode = fs::symlink_metadata(&dst_path).ok().map(|x| x.permissions());
                 fs::copy(src.path(), &dst_path)?;
 
                 // Optionally set new mode
                 if let Some(mode) = file_mode {
                     fs::set_permissions(&dst_path, fs::Permissions::from_mode(mode))?;
+                } else if let Some(perms) = dst_mode {
+                    fs::set_permissions(&dst_path, perms)?;
                 }
             }
         }
